@@ -21,7 +21,8 @@ CPAL = [np.array(['a', 'b', 'a', 'c', 'b', 'a']), np.array(['c', 'a', 'b', 'b', 
 IMG = [np.array([[1., 1., 5.], [1., 5., 5.], [9., 1., 1.]]), np.array([[1., 5., 5.], [5., 5., 1.], [1., 1., 1.]])]
 
 
-IMAGE_KINDS = ('floodfill', 'floodfill_linked')
+IMAGE_KINDS = ('floodfill', 'floodfill_linked', 'slice_aligned')
+TWO_IMAGE_KINDS = ('floodfill_linked', 'slice_aligned')
 
 
 def P0(kind):
@@ -55,7 +56,7 @@ class World(object):
             self.img = Data(label='img', v=IMG[p['img']].copy())
             self.cv = self.img.id['v']
             datasets.append(self.img)
-        if kind == 'floodfill_linked':
+        if kind in TWO_IMAGE_KINDS:
             # a second, pixel-aligned image: the flood fill of img is evaluated ON img2
             self.img2 = Data(label='img2', v2=IMG[0].copy() * 2 + 1)
             self.cv2 = self.img2.id['v2']
@@ -66,11 +67,17 @@ class World(object):
             self.link = ComponentLink([self.cx], self.cu, using=lambda x: factor * x)
             if p['link']:
                 self.dc.add_link(self.link)
-        if kind == 'floodfill_linked':
+        if kind in TWO_IMAGE_KINDS:
             from glue.core.link_helpers import LinkSame
-            for a, b in zip(self.img.pixel_component_ids, self.img2.pixel_component_ids):
-                self.dc.add_link(LinkSame(a, b))
-        self.target = self.img2 if kind == 'floodfill_linked' else (self.img if kind == 'floodfill' else self.d)
+            # (slice_aligned: the first image's axes are linked to the second image's axes in REVERSE order when
+            # p['link'] == 'T', so that the re-ordering of the slices matters)
+            pairs = list(zip(self.img.pixel_component_ids, self.img2.pixel_component_ids))
+            if p['link'] == 'T':
+                pairs = list(zip(self.img.pixel_component_ids, self.img2.pixel_component_ids[::-1]))
+            self.pixel_links = [LinkSame(a, b) for a, b in pairs]
+            if p['link']:
+                self.dc.set_links(self.pixel_links)
+        self.target = self.img2 if kind in TWO_IMAGE_KINDS else (self.img if kind == 'floodfill' else self.d)
         self.state = KINDS[kind]['make'](self, p['s'])
         self.seen_on_change = None
         if listen:
@@ -100,7 +107,7 @@ class World(object):
         from glue.core.exceptions import IncompatibleAttribute
         out = {}
         t = self.target
-        att = self.cv2 if self.kind == 'floodfill_linked' else (self.cv if self.kind == 'floodfill' else self.cx)
+        att = self.cv2 if self.kind in TWO_IMAGE_KINDS else (self.cv if self.kind == 'floodfill' else self.cx)
         view = (slice(0, 2), slice(1, 3)) if self.kind in IMAGE_KINDS else (slice(1, 5),)
 
         def guard(name, fn):
@@ -145,7 +152,7 @@ def ev_subset(w):
         sub = [s for s in w.target.subsets if s.group is w.group][0]
         _quiet(lambda: sub.to_mask())
     else:
-        att = w.cv2 if w.kind == 'floodfill_linked' else (w.cv if w.kind == 'floodfill' else w.cx)
+        att = w.cv2 if w.kind in TWO_IMAGE_KINDS else (w.cv if w.kind == 'floodfill' else w.cx)
         _quiet(lambda: w.target.compute_statistic('mean', att, subset_state=w.state))
 
 
@@ -383,6 +390,28 @@ def mk_floodfill(w, s):
     return FloodFillSubsetState(w.img, w.cv, sp(s, 'start', (0, 0)), sp(s, 'thr', 1.2))
 
 
+def mk_slice_aligned(w, s):
+    """a slice selection defined on img, in a composite with a condition on img2's own values, evaluated on img2:
+    the slices reach img2 only through the record of pixel-aligned datasets, which follows the links"""
+    from glue.core.subset import SliceSubsetState
+    return SliceSubsetState(w.img, [slice(0, 2), slice(1, 3)]) | (w.cv2 > sp(s, 'thr', 18.0))
+
+
+def m_pixel_links(how):
+    """all pixel links replaced in ONE link-manager update: none, straight, or with the axes crossed"""
+    def real(w):
+        from glue.core.link_helpers import LinkSame
+        a, b = w.img.pixel_component_ids, w.img2.pixel_component_ids
+        if how == 'clear':
+            w.dc.set_links([])
+        else:
+            w.dc.set_links([LinkSame(x, y) for x, y in zip(a, b if how == 'straight' else b[::-1])])
+
+    def model(p):
+        p['link'] = {'clear': False, 'straight': True, 'crossed': 'T'}[how]
+    return ('links:%s' % how, real, model)
+
+
 def mk_linked(w, s):
     return w.cu > sp(s, 'thr', 5.0)
 
@@ -445,6 +474,9 @@ KINDS = {
     # on the other dataset but depends on this one's values
     'floodfill_linked': dict(s0=dict(start=(0, 0), thr=1.2), make=lambda w, s: ~mk_floodfill(w, s),
                              muts=[m_upd_img(), setter(['state1'], 'threshold', 5.5, 'thr')]),
+    'slice_aligned': dict(s0=dict(thr=18.0), make=mk_slice_aligned,
+                          muts=[m_pixel_links('clear'), m_pixel_links('straight'), m_pixel_links('crossed'),
+                                setter(['state2'], 'right', 4.0, 'thr')]),
     'floodfill': dict(s0=dict(start=(0, 0), thr=1.2), make=mk_floodfill, muts=[m_upd_img(), setter([], 'threshold', 5.5, 'thr'),
                                                setter([], 'start_coords', (2, 0), 'start')]),
     'linked': dict(s0=dict(thr=5.0), make=mk_linked, muts=[m_upd_x(1), m_link(False), m_link(True), m_link_swap(), setter([], 'right', 7.0, 'thr')]),
